@@ -13,7 +13,7 @@ def run(ctx):
                         "bridge list: re-installation at any step is a label of the model (L_Install); the default-bridge rule is applied by the model (fp_of)"]
     ctx.trusted.append("harness/overlay/broker/zz_verif_broker_test.go scenario driver; lib/checks/brokerlib.py label derivation")
     scens = brokerlib.scenarios(ctx.rng, ctx.tier)
-    brokerlib.run_scenarios(ctx, scens, {CID}, "broker-scenarios")
+    brokerlib.run_scenarios(ctx, scens, {CID}, "broker-scenarios", burst=True)
 
 
 def replay(ctx, doc):
